@@ -17,6 +17,8 @@ for i in ids:
     if i not in CLAIMS:
         continue
     tech, text, note, ref = CLAIMS[i]
+    if i in globals().get('R4', {}):
+        text = text + " " + R4[i]
     checks.append({
         "property_id": i,
         "quick_cmd": f"bin/vcheck -property {i} -tier quick",
@@ -43,7 +45,7 @@ m = {
         "kind_free_text": "repository-specific static analyser: go/packages (type-checked syntax of /repo and its dependencies) -> go/ssa -> rule kit (edge dominance, must-pass, no-effect-before-error, writers/provenance, lockset, linear height-label interpreter, codec symmetry, nil-flow, consume typestate, alloc-bound, channel budget); nothing in /repo is executed",
     }],
     "checks": checks,
-    "notes": "All checks are static (family: static analysis). Each decides structural necessary conditions of its property and says in level_note what it does not decide. Genuine defects found were repaired in /repo by 'fix:' commits; see known_findings.json and DESIGN.md section 5.",
+    "notes": "All checks are static (family: static analysis). Each decides structural necessary conditions of its property and says in level_note what it does not decide. Genuine defects found were repaired in /repo by 'fix:' commits; see known_findings.json and DESIGN.md sections 5, 10.3 and 10.9.",
     "not_applicable": [{"property_id": i, "reason": NA.get(i, "check not built yet (design in DESIGN.md section 4); will be claimed once vcheck decides it")} for i in ids if i not in CLAIMS],
 }
 json.dump(m, open(os.path.join(V, 'MANIFEST.json'), 'w'), indent=1)
